@@ -33,6 +33,8 @@ func TestFamily(t *testing.T) {
 		scs = append(replayFamily(behs), scriptFamily("poll", seed+7, EnvInt("VERIF_NRANDOM", 40))...)
 	case "reg":
 		scs = regFamily(behs)
+	case "cons":
+		scs = consFamily(behs)
 	case "grace":
 		scs = graceFamily()
 	case "direct":
